@@ -71,6 +71,26 @@ void h_table(void)
 	VG_CANARY("table");
 }
 
+/* Order-independent statement of the type lookup (plain route, real loop unwound; does not depend on the table layout
+   nor on the loop anchors): for EVERY type byte, the real ext_header_for_num returns the entry for that type -- its
+   code, its decoder and the format's minimum length -- and NULL for every other byte. */
+void h_lookup(void)
+{
+	uint8_t n = nondet_uchar();
+	LHAExtHeaderType *t = ext_header_for_num(n);
+	__CPROVER_assert(VG_KNOWN_TYPE(n) || t == NULL, "C05/C08 lookup: unknown extended-header types have no decoder");
+	__CPROVER_assert(!VG_KNOWN_TYPE(n) || (t != NULL && t->num == n), "C05 lookup: every defined extended-header type is found, under its own code");
+	__CPROVER_assert(!VG_KNOWN_TYPE(n) || t == NULL || t->min_len == VG_MIN_LEN(n), "C08 lookup: minimum data length of the type is the format's");
+	__CPROVER_assert(!VG_KNOWN_TYPE(n) || t == NULL || t->decoder == (
+		n == VG_T_COMMON ? ext_header_common_decoder : n == VG_T_FILENAME ? ext_header_filename_decoder :
+		n == VG_T_PATH ? ext_header_path_decoder : n == VG_T_WINTS ? ext_header_windows_timestamps :
+		n == VG_T_PERMS ? ext_header_unix_perms_decoder : n == VG_T_UIDGID ? ext_header_unix_uid_gid_decoder :
+		n == VG_T_GROUP ? ext_header_unix_group_decoder : n == VG_T_USER ? ext_header_unix_username_decoder :
+		n == VG_T_TIME ? ext_header_unix_timestamp_decoder : ext_header_os9_decoder),
+		"C05 lookup: the type's own decoder is selected");
+	VG_CANARY("lookup");
+}
+
 /* ---- C20/C08 ownership history (bounded, real code, no contracts) ----
    A header with no strings yet receives VG_LC_K extended headers of any types and any contents (each data
    block an exactly-sized heap object of at most VG_LC_N bytes), every malloc may fail; then the owner releases
